@@ -2,7 +2,7 @@
 // of the TBB schedule: FlagStore::run_par (edge_op.cpp) and the comparators
 // that key the normalising sorts.
 #include "vf_harness.h"
-#include "/repo/src/edge_op.cpp"
+#include "edge_op.cpp"
 using namespace manifold;
 #ifndef VF_N
 #define VF_N 4
